@@ -2,6 +2,8 @@
 
 package elastic
 
+import "rcproxy/core/pkg/buffer/ring"
+
 // Verification hooks (add-only, tag verif): the ring of an elastic buffer comes from a sync.Pool,
 // so its capacity at the moment it is taken is not determined by the program; the harness reads
 // it here and gives it to the model.
@@ -9,8 +11,9 @@ package elastic
 // VerifPresent reports whether the ring has been taken from the pool.
 func (b *RingBuffer) VerifPresent() bool { return b.rb != nil }
 
-// VerifPrime takes the ring from the pool now (the next Write would) and returns its capacity.
-func (b *RingBuffer) VerifPrime() int { return b.instance().Cap() }
+// VerifRingIs reports whether the ring in use is rb (the harness puts a ring of a chosen capacity
+// into the pool and checks afterwards that this is the one that was taken).
+func (b *RingBuffer) VerifRingIs(rb *ring.Buffer) bool { return b.rb == rb }
 
 // VerifRing exposes the ring part of the mixed buffer.
 func (mb *Buffer) VerifRing() *RingBuffer { return &mb.ringBuffer }
